@@ -149,8 +149,16 @@ func applyEdit(d *document.Document, s prog.Step) (desc string, err error) {
 		case s.Op == "trsplit" || len(ps) < 2:
 			i := s.A % len(ps)
 			k := s.B % (ps[i].Index.Len() + 1)
-			tr.EditByPath([]int{i, k}, []int{i, k}, nil, 1)
-			desc = fmt.Sprintf("tr.split p%d at %d", i, k)
+			// split level 1 or 2 (2 is deeper than <doc><p>text allows: the split
+			// stops at the root and carries fewer tickets than levels), with or
+			// without content inserted at the split point
+			level := 1 + (s.C/3)%2
+			var content *json.TreeNode
+			if c := []string{"", "X", "YZ"}[s.C%3]; c != "" {
+				content = &json.TreeNode{Type: "text", Value: c}
+			}
+			tr.EditByPath([]int{i, k}, []int{i, k}, content, level)
+			desc = fmt.Sprintf("tr.split p%d at %d level %d content %v", i, k, level, content != nil)
 		default:
 			i := s.A % (len(ps) - 1)
 			tr.EditByPath([]int{i, ps[i].Index.Len()}, []int{i + 1, 0}, nil, 0)
